@@ -269,3 +269,66 @@ def r4(rr, repo):
         ok = prev is not None and isinstance(prev, ast.Expr) and isinstance(prev.value, ast.Call) and U(prev.value.func).endswith('.emitter.stop_lineage_heart_beat')
         rr.ob('Filter.run: every terminal emission is directly preceded by stopping the heartbeat (same guard)', ok, mod, c, witness=U(prev)[:80] if prev is not None else 'first statement of its block', key='run-stop-before-terminal')
     rr.floor('terminal emissions examined', n, 5, mod, cls)
+    # "stopped" has to mean that no RUNNING can follow: either the stopper waits for the heartbeat thread, or the RUNNING emission re-checks the flag
+    # under a lock the terminal emission also takes. Setting a flag alone leaves a window (thread past its loop test, waiting for the emitter lock).
+    lm, stop = repo.find(f'{LIN}::OpenFilterLineage.stop_lineage_heart_beat')
+    _, hb = repo.find(f'{LIN}::OpenFilterLineage._heartbeat_loop')
+    joins = [c for c in q.calls_in(stop) if isinstance(c.func, ast.Attribute) and c.func.attr == 'join']
+    sets = [c for c in q.calls_in(stop) if isinstance(c.func, ast.Attribute) and c.func.attr == 'set']
+    rr.ob('stop_lineage_heart_beat raises the stop flag', bool(sets), lm, stop, key='stop-sets-flag')
+    term_locked = all(q.within_with(c, 'self._lock') for f_ in ('emit_stop', 'emit_complete') for c in q.calls_in(repo.find(f'{LIN}::OpenFilterLineage.{f_}')[1]) if U(c.func) == 'self._emit_event')
+    recheck = any(isinstance(n_, ast.If) and 'is_set()' in U(n_.test) and q.within_with(n_, 'self._lock') for n_ in ast.walk(hb))
+    rr.ob('stopping the heartbeat excludes a later RUNNING event: the stopper joins the heartbeat thread, or the heartbeat re-checks the flag and the terminal events are emitted under the same lock',
+          bool(joins) or (term_locked and recheck), lm, stop, witness=f'join calls: {len(joins)}; terminal emissions under the lock: {term_locked}; flag re-checked under the lock: {recheck}', key='stop-does-not-wait')
+
+
+@rule('C18.R5', 'the emitter emits what its methods are named after: emit_start -> START, emit_complete -> COMPLETE, emit_stop -> ABORT, the heartbeat loop -> RUNNING while not stopped; _emit_event hands exactly '
+                'that type (and the one run id) to the client; the heartbeat is one thread, started only after the stop flag was cleared')
+def r5(rr, repo):
+    lm = repo.module(LIN)
+    table = {'emit_start': 'START', 'emit_complete': 'COMPLETE', 'emit_stop': 'ABORT'}
+    for name, kind in table.items():
+        _, fn = repo.find(f'{LIN}::OpenFilterLineage.{name}')
+        calls = [c for c in q.calls_in(fn) if U(c.func) == 'self._emit_event']
+        kinds = []
+        for c in calls:
+            a = q.kwarg(c, 'event_type') if q.kwarg(c, 'event_type') is not None else (c.args[0] if c.args else None)
+            kinds.append(U(a) if a is not None else None)
+        rr.ob(f'{name} emits exactly one event, of type RunState.{kind}', kinds == [f'RunState.{kind}'], lm, fn, witness=str(kinds), key=f'emits|{name}')
+        g = [t for c in calls for t, pol in q.guards_of(c, stop=fn)]
+        rr.ob(f'{name} emits unconditionally', not g, lm, fn, witness=' && '.join(U(t)[:40] for t in g), key=f'emits-unconditional|{name}')
+    _, hb = repo.find(f'{LIN}::OpenFilterLineage._heartbeat_loop')
+    loops = [n for n in walk_scope(hb) if isinstance(n, ast.While)]
+    okl = len(loops) == 1 and isinstance(loops[0].test, ast.UnaryOp) and isinstance(loops[0].test.op, ast.Not) and U(loops[0].test.operand) == 'self._stop_event.is_set()'
+    rr.ob('the heartbeat loop runs while the stop flag is not set', okl, lm, hb, witness=U(loops[0].test) if loops else 'no loop', key='hb-loop')
+    if loops:
+        inl = [c for c in q.calls_in(loops[0]) if U(c.func) == 'self._emit_event']
+        kinds = [U(q.kwarg(c, 'event_type') if q.kwarg(c, 'event_type') is not None else c.args[0]) for c in inl if c.args or c.keywords]
+        rr.ob('each round of the heartbeat emits one RUNNING event', kinds == ['RunState.RUNNING'], lm, loops[0], witness=str(kinds), key='hb-running')
+        waits = [c for c in q.calls_in(loops[0]) if U(c.func) == 'self._stop_event.wait']
+        rr.ob('between two heartbeats the thread sleeps on the stop flag (it wakes at once when stopped)', len(waits) == 1, lm, loops[0], key='hb-wait')
+        other = [c for c in q.calls_in(hb) if U(c.func) == 'self._emit_event' and c not in inl]
+        rr.ob('outside the loop the heartbeat thread emits no RUNNING event', not [c for c in other if 'RUNNING' in U(c)], lm, hb, key='hb-no-running-outside')
+    # _emit_event: the type and run id reach the client
+    _, emit = repo.find(f'{LIN}::OpenFilterLineage._emit_event')
+    p0 = q.func_params(emit)[1]
+    evs = [c for c in q.name_calls(emit, 'RunEvent')]
+    rr.floor('RunEvent constructions', len(evs), 1, lm, emit)
+    for c in evs:
+        et = q.kwarg(c, 'eventType')
+        rr.ob('the event is built with the type it was asked to emit', et is not None and U(et) == p0, lm, c, witness=U(et) if et is not None else 'no eventType', key='event-type-passed')
+        tgt = [n for n in ast.walk(emit) if isinstance(n, ast.Assign) and n.value is c]
+        name = tgt[0].targets[0].id if tgt and isinstance(tgt[0].targets[0], ast.Name) else None
+        sends = [x for x in q.calls_in(emit) if U(x.func) == 'self.client.emit']
+        rr.ob('exactly that event is handed to the client, once', len(sends) == 1 and name is not None and [U(a) for a in sends[0].args] == [name], lm, sends[0] if sends else emit, key='event-sent')
+    stores = [n for n in ast.walk(emit) if isinstance(n, (ast.Assign, ast.AugAssign)) and any(U(t).startswith('self.run_id') for t in (n.targets if isinstance(n, ast.Assign) else [n.target]))]
+    rr.ob('emitting never changes the run id', not stores, lm, emit, key='emit-keeps-runid')
+    # the thread
+    _, start = repo.find(f'{LIN}::OpenFilterLineage.start_lineage_heart_beat')
+    th = [c for c in q.calls_in(start) if U(c.func) == 'threading.Thread']
+    tgt = [U(q.kwarg(c, 'target')) for c in th if q.kwarg(c, 'target') is not None]
+    rr.ob('start_lineage_heart_beat starts one thread that runs the heartbeat loop', tgt == ['self._heartbeat_loop'] and any(U(c.func).endswith('.start') for c in q.calls_in(start)), lm, start, witness=str(tgt), key='hb-thread')
+    alive = [n for n in walk_scope(start) if isinstance(n, ast.If) and 'is_alive()' in U(n.test) and any(isinstance(b, ast.Return) for b in n.body)]
+    rr.ob('a second start while the heartbeat is alive does nothing (never two heartbeat threads)', bool(alive), lm, start, key='hb-single')
+    clears = [c for c in q.calls_in(start) if U(c.func) == 'self._stop_event.clear']
+    rr.ob('the stop flag is cleared before the thread is started', bool(clears) and bool(th) and clears[0].lineno < th[0].lineno, lm, start, key='hb-clear-first')
